@@ -78,7 +78,7 @@ func (w *World) IndexConcurrently(ms [][]int, rnd *hx.Rand, faultAt int) ([]DuoR
 		for _, l := range layers {
 			d := LayerDigest(l)
 			w.layerNo[d.String()] = l
-			m.Layers = append(m.Layers, &claircore.Layer{Hash: d, URI: "mem://layer/" + strconv.Itoa(l)})
+			m.Layers = append(m.Layers, &claircore.Layer{Hash: d, URI: "mem://layer/" + strconv.Itoa(l), Headers: map[string][]string{"X-Layer": {strconv.Itoa(l)}}})
 		}
 		out[i].Layers = layers
 		s0[i] = len(w.Scans)
